@@ -67,6 +67,8 @@ def gen_case(seed, tier="quick"):
             kinds = ("f64",)
         elif r < 0.45:
             kinds = ("float", "int", "f64")
+        elif r < 0.53:
+            kinds = ("float", "frac", "bigint", "int")   # exact rationals and ints beyond 2**53 are numbers.Real too
     hz = rng.random() < 0.35
     start = gen_vec(rng, dim, kinds, hazard=False, be=be)
     nsteps = rng.choice((1, 2, 3, 5, 8, 12, 20, 40)) if tier == "thorough" else rng.choice((1, 2, 3, 5, 8, 12))
@@ -134,6 +136,10 @@ def gen_case(seed, tier="quick"):
                     st["arg0"] = gen_vec(rng, dim, kinds, hazard=hz and rng.random() < 0.2, be=be) if rng.random() < 0.85 else {"be": "self"}
             else:
                 f = rng.choice((2.0, 0.5, -1.5, 3, 1.0, -1, {"$": "f64", "v": 1.25}, 0.0 if rng.random() < 0.3 else 4.0, 0 if rng.random() < 0.3 else 2))
+                if rng.random() < 0.12:
+                    # scale factors whose reciprocal / product is not what a detour through float gives
+                    f = rng.choice((2 ** 53 + 1, 10 ** 17 + 3, -(2 ** 53 + 3), 3 ** 41, {"$": "frac", "v": [1, 3]}, {"$": "frac", "v": [-7, 2]},
+                                    {"$": "frac", "v": [2 ** 53 + 1, 2 ** 53 - 1]}, {"$": "dec", "v": "2.5"}, {"$": "dec", "v": "0.1"}))
                 if rng.random() < 0.03:
                     f = None
                 st = {"s": kind, "op": op, "arg": f}
@@ -153,7 +159,7 @@ def gen_case(seed, tier="quick"):
         chosen = (pref[:1] + cand)[: rng.choice((1, 1, 2, 3))]
         for i in sorted(set(chosen)):
             flts.append({"i": i, "seam": rng.choice(fault_kinds), "n": rng.choice((1, 1, 2, 2, 3, 4, 6)),
-                         "exc": rng.choice(("FloatingPointError", "MemoryError", "OverflowError", "ZeroDivisionError"))})
+                         "exc": rng.choice(("FloatingPointError", "MemoryError", "OverflowError", "ZeroDivisionError", "SimCancel"))})
         if rng.random() < 0.3:
             cs = [i for i, s in enumerate(steps) if s["s"] == "set"]
             if cs:
@@ -172,6 +178,14 @@ def _decode_num(x):
             return numpy.float64(x["v"])
         if t == "simfloat":
             return faults.SimFloat(x["v"])
+        if t == "frac":
+            import fractions
+
+            return fractions.Fraction(x["v"][0], x["v"][1])
+        if t == "dec":
+            import decimal
+
+            return decimal.Decimal(x["v"])
         if t == "sym":
             import sympy
 
@@ -311,6 +325,13 @@ def _roughly(a, b, scale):
     return abs(a - b) <= 1e-7 * max(abs(a), abs(b)) + 1e-7 * scale
 
 
+def _both_nan(a, b):
+    try:
+        return float(a) != float(a) and float(b) != float(b)
+    except Exception:
+        return False
+
+
 def _both_nonfinite(a, b):
     try:
         a, b = float(a), float(b)
@@ -348,7 +369,7 @@ def run_case(case, vector):
         if kind == "read":
             try:
                 getattr(v, st["name"])
-            except Exception as e:
+            except faults.CATCH as e:
                 stats["raised"] += 1
                 _nat(stats, e)
             if state_bits(v) != before:
@@ -367,13 +388,13 @@ def run_case(case, vector):
             if generic in PARTNER and has_group:
                 try:
                     partner_before = getattr(v, PARTNER[generic])
-                except Exception as e:  # the setter will hit the same error when it reads the partner
+                except faults.CATCH as e:  # the setter will hit the same error when it reads the partner
                     partner_err = e
             faults.set_ctx(ctx)
             try:
                 setattr(v, name, val)
                 exc = None
-            except Exception as e:
+            except faults.CATCH as e:
                 exc = e
             finally:
                 faults.set_ctx(None)
@@ -411,7 +432,7 @@ def run_case(case, vector):
                 rb = getattr(v, name)
                 if _num(rb) != _num(val):
                     viol.append(_viol("I5", "readback-differs", i, st, f"{name}={val!r} reads {rb!r}"))
-            except Exception as e:
+            except faults.CATCH as e:
                 viol.append(_viol("I5", "readback-raises", i, st, f"{type(e).__name__}: {e}"))
             if [cn for _, cn, _ in after] != before_sys:
                 stats["sys_switches"] += 1
@@ -451,16 +472,20 @@ def run_case(case, vector):
         # functional twin (no faults)
         exp_exc = None
         expected = None
+        exact = False
         try:
             fres = fn(*func_args)
             if hasattr(fres, "azimuthal") and not isinstance(fres, numpy.ndarray) and type(fres).__module__ == type(v).__module__ \
                     and len(stored(fres)) == len(stored(v)):
                 expected = to_system(fres, [_suffix(cn) for cn in before_sys])
+                # where the functional result already is in the stored coordinate system no conversion (and so no
+                # rounding) separates the two: "equals" is then equality of the numbers, not closeness
+                exact = [cn for _, cn, _ in stored(fres)] == before_sys
             elif not (hasattr(fres, "azimuthal") and type(fres).__module__ == type(v).__module__):
                 exp_exc = TypeError("functional result is not a single vector of this backend")
             else:
                 exp_exc = "dimension"
-        except Exception as e:
+        except faults.CATCH as e:
             exp_exc = e
         faults.set_ctx(ctx)
         try:
@@ -472,7 +497,7 @@ def run_case(case, vector):
                 else:
                     res = fn(*func_args, out=(v,)) if opn != "negative" else fn(snap0, out=(v,))
             exc = None
-        except Exception as e:
+        except faults.CATCH as e:
             exc = e
             res = None
         finally:
@@ -511,7 +536,9 @@ def run_case(case, vector):
         exp = stored(expected)
         for (g, cn, els), (_, _, xels) in zip(after, exp):
             for q, (a, b) in enumerate(zip(els, xels)):
-                if not _num_close(a, b, angle=(_suffix(cn) == "RhoPhi" and q == 1)):
+                if exact and _num(a) != _num(b) and not _both_nan(a, b):
+                    viol.append(_viol("I5", "inplace-not-equal-to-functional", i, st, f"{g}[{q}]: in-place {a!r} functional {b!r} (same system, no conversion)"))
+                elif not _num_close(a, b, angle=(_suffix(cn) == "RhoPhi" and q == 1)):
                     viol.append(_viol("I5", "inplace-differs-from-functional", i, st, f"{g}[{q}]: in-place {a!r} functional {b!r}"))
         # every coordinate *getter* (stored or derived) must agree with the functional result too: a derived value
         # memoised before the update must not survive it
@@ -560,6 +587,8 @@ def _unbits_groups(before):
 def _fired(stats, ctx):
     for fk in ctx.fired:
         stats["faults_fired"][fk[0]] += 1
+        if fk[3] == "SimCancel":
+            stats["faults_fired"]["cancel"] = stats["faults_fired"].get("cancel", 0) + 1
 
 
 def _nat(stats, e):
